@@ -34,6 +34,7 @@ type Event struct {
 	Seq    int
 	Closure *closureVal // go/defer/call of a closure
 	StaticCallee *ssa.Function
+	Virtual bool // produced by splitReturns (not an item of any region)
 }
 
 type Carried struct {
